@@ -21,6 +21,9 @@ DOCUMENTED = list(REQUEST_CONTENT_TYPES)
 MEDIA = []
 for t in ['application/json', 'application/json-rpc', 'application/jsonrequest']:
     MEDIA += [t, t + '; charset=utf-8', t.upper(), t + ';charset=UTF-8; foo=bar', ' ' + t]
+    MEDIA += [t + '; charset=us-ascii', t + '; charset=iso-8859-1', t + '; charset="utf-8"', t + '; version=2']
+VENDOR = 'application/vnd.acme-rpc+json'
+MEDIA += [VENDOR, VENDOR + '; charset=utf-8']
 MEDIA += ['application/jsonx', 'application/json+rpc', 'text/plain', 'text/json', '', None, 'application/vnd.api+json',
           'application/*', 'json', 'application/x-www-form-urlencoded', 'multipart/form-data; boundary=x']
 
@@ -105,7 +108,32 @@ def accepted_media(ct):
     return ct.split(';')[0].strip().lower() in DOCUMENTED
 
 
+ASCII_ONLY = ('unicode', 'non-utf8', 'bom')
+# requests served one after the other by ONE long-lived application: (media type, body)
+SEQ_ALPHABET = [('application/json', 'call'), ('text/plain', 'call'), (None, 'call'), ('application/json', 'parse'),
+                ('application/json', 'non-utf8'), ('application/json; charset=utf-8', 'notif'), ('application/json-rpc', 'perr'),
+                ('text/html', 'notif'), ('application/json', 'mixed')]
+
+
+def other_charset(ct):
+    return bool(ct) and 'charset=' in ct.lower() and 'utf-8' not in ct.lower()
+
+
 def gen_cases(ctx):
+    # histories: every request must get the reply a fresh application gives for it, whatever was served before
+    for n in (2, 3):
+        for seq in itertools.product(range(len(SEQ_ALPHABET)), repeat=n):
+            if n == 3 and ctx.quick and not (seq[0] in (1, 2, 4) or seq[1] in (1, 2, 4)):
+                continue
+            yield dict(part='seq', seq=list(seq), status='default', path='/api')
+            if n == 2:
+                yield dict(part='seq', seq=list(seq), status='first-code-table', path='/rpc')
+    # the process-wide default content type changed by the user (pjrpc.set_default_content_type): replies carry it, the set of
+    # accepted request types stays the documented one
+    for dct in ('application/json-rpc', VENDOR):
+        for mi, ct in enumerate(MEDIA):
+            for bname in ('call', 'mixed', 'notif', 'parse', 'perr'):
+                yield dict(status='default', path='/api', media=mi, body=bname, endpoint='', dct=dct)
     for sname in STATUS:
         for path in PATHS:
             for mi, ct in enumerate(MEDIA):
@@ -123,10 +151,57 @@ def gen_cases(ctx):
                     yield dict(status=sname, path='/api', media=mi, body=bname, endpoint='/v2', endpoint_mode='child')
 
 
+def run_seq(case, rec):
+    sfn = STATUS[case['status']]
+    obs = []
+    for kind in KINDS:
+        log = []
+        integ = Integration(kind, case['path'], status_by_error=sfn)
+        register(integ.dispatcher, log, kind == 'aiohttp')
+        for step, si in enumerate(case['seq']):
+            ct, bname = SEQ_ALPHABET[si]
+            del log[:]
+            rep = integ.post(BODIES[bname], ct)
+            flog = []
+            fresh = Integration(kind, case['path'], status_by_error=sfn)
+            register(fresh.dispatcher, flog, kind == 'aiohttp')
+            frep = fresh.post(BODIES[bname], ct)
+            rec.transitions += 2
+            a, b = (rep.status, rep.content_type, rep.body, rep.raised), (frep.status, frep.content_type, frep.body, frep.raised)
+            if a != b or log != flog:
+                rec.violation('C18:%s:the reply to a request depends on the requests the application served before' % kind,
+                              dict(case, integration=kind, step=step), expected=repr(frep), observed=repr(rep))
+                break
+            obs.append(rep.status)
+        rec.outcomes['%s:sequence' % kind] += 1
+    rec.states += 1
+    rec.traces += 1
+    rec.nontrivial_n += 1
+    return tuple(obs)
+
+
 def run_case(case, rec):
+    if case.get('part') == 'seq':
+        return run_seq(case, rec)
+    if case.get('dct'):
+        old = pjrpc.common.DEFAULT_CONTENT_TYPE
+        pjrpc.common.set_default_content_type(case['dct'])
+        try:
+            return run_one(case, rec)
+        finally:
+            pjrpc.common.set_default_content_type(old)
+    return run_one(case, rec)
+
+
+def run_one(case, rec):
     ct = MEDIA[case['media']]
     body = BODIES[case['body']]
     sfn = STATUS[case['status']]
+    if other_charset(ct) and case['body'] in ASCII_ONLY:
+        # a declared charset other than UTF-8 with a non-ASCII body: how the body is to be decoded is outside the statement
+        rec.states += 1
+        rec.traces += 1
+        return ('skipped',)
     replies = {}
     obs = []
     for kind in KINDS:
@@ -217,7 +292,7 @@ def replay(doc):
     from mc.core import Recorder, jdump
     rec = Recorder()
     c = doc['case']
-    run_case({k: c[k] for k in ('status', 'path', 'media', 'body', 'endpoint', 'endpoint_mode', 'target') if k in c}, rec)
+    run_case({k: c[k] for k in ('part', 'seq', 'status', 'path', 'media', 'body', 'endpoint', 'endpoint_mode', 'target', 'dct') if k in c}, rec)
     for v in rec.violations[:6]:
         print('VIOLATION-REPLAY signature=%s\n  expected=%s\n  observed=%s' % (v['signature'], jdump(v['expected'])[:300], jdump(v['observed'])[:300]))
     print('replayed: %d violation(s)' % len(rec.violations))
